@@ -10,6 +10,7 @@ mod bdd;
 mod cnf;
 mod compile;
 mod dnnf;
+mod dtree;
 mod ff;
 mod lattice;
 mod lru;
@@ -30,6 +31,7 @@ pub fn run_case(c: &Value) -> CaseResult {
         "order_perm" => order::run(c),
         "lru_seq" => lru::run(c),
         "poly_ops" => poly::run(c),
+        "dtree_cnf" => dtree::run(c),
         "lat_eu" | "lat_real" | "lat_bool" => lattice::run(c),
         "compile_expr" | "compile_cnf" => compile::run(c),
         _ => Err(format!("unknown case kind {kind}")),
@@ -83,6 +85,7 @@ fn main() {
                 "order" => order::candidates(seed),
                 "lru" => lru::candidates(seed),
                 "poly" => poly::candidates(seed),
+                "dtree" => dtree::candidates(seed),
                 "lattice" => lattice::candidates(seed),
                 "compile" => compile::candidates(seed),
                 _ => vec![],
